@@ -5,7 +5,7 @@ from __future__ import annotations
 import ast
 from typing import Any, Dict, List, Optional, Set, Tuple
 
-from ..core import Tree, Func, Class, dotted, src, AnalysisError, AnchorMissing, body_walk, ancestors
+from ..core import Tree, Func, Class, dotted, src, AnalysisError, AnchorMissing, body_walk, ancestors, parent
 from ..framework import Finding, RuleResult
 from ..norm import try_fold, strip_stmts, canon
 from ..cfg import cfg_of, fact_holds
@@ -183,8 +183,26 @@ def rule_D3(tree: Tree) -> RuleResult:
     loop = next((a for a in ancestors(wp[0]) if isinstance(a, ast.For)), None) if wp else None
     ok = ok and loop is not None and src(loop.target) == "(buf, ts)"
     opened = [n for n in body_walk(run.node) if isinstance(n, ast.Call) and dotted(n.func) == "open" and len(n.args) > 1 and try_fold(n.args[1]) == "wb"]
-    closes = [n for n in body_walk(run.node) if isinstance(n, ast.Call) and dotted(n.func) == "file.close"]
-    ok = ok and len(opened) == 1 and len(closes) >= 2
+    ok = ok and len(opened) == 1
+    if ok:
+        # the output file is closed on the way out: opened as the item of a `with`, or bound to a name whose .close() post-dominates the open
+        par = parent(opened[0])
+        if isinstance(par, ast.withitem):
+            closed = True
+        elif isinstance(par, ast.Assign) and len(par.targets) == 1 and isinstance(par.targets[0], ast.Name):
+            fname = par.targets[0].id
+            rc0 = cfg_of(run.node)
+            closed = any(isinstance(n, ast.Call) and dotted(n.func) == f"{fname}.close" and rc0.postdominates(rc0.node_of(n), rc0.node_of(opened[0]))
+                         for n in body_walk(run.node))
+        else:
+            closed = False
+        ok = closed
+    if ok:
+        # the output file is opened (= truncated) only after the capture has been read: the reading loop dominates the open and does not contain it
+        # (-o may name the file given with -i; a run that fails while reading must not leave a truncated result behind)
+        rc1 = cfg_of(run.node)
+        rd_loops = [n for n in body_walk(run.node) if isinstance(n, ast.For) and src(n.target) == "(ts, buf)" and not any(x is wp[0] for x in ast.walk(n))]
+        ok = len(rd_loops) == 1 and not any(x is opened[0] for x in ast.walk(rd_loops[0])) and rc1.dominates(rc1.node_of(rd_loops[0]), rc1.node_of(opened[0]))
     if ok:
         sl = next((try_fold(k.value) for k in wr[0].keywords if k.arg == "snaplen"), None)
         # a frame carries up to 2^14 bytes of record plaintext plus Ethernet/IPv6/TCP headers: the announced snaplen must not be smaller
@@ -204,7 +222,7 @@ def rule_D3(tree: Tree) -> RuleResult:
         o_n, w_n = rcfg.node_of(opened[0]), rcfg.node_of(wr[0])
         # an output file that was opened is always given its pcapng header (Writer) — no return in between
         ok = rcfg.postdominates(w_n, o_n) and not any(n.kind == "stmt" and isinstance(n.ast, ast.Return) and rcfg.dominates(o_n, n.id) and not rcfg.dominates(w_n, n.id) for n in rcfg.nodes)
-    r.ob(ok, Finding("D3", "main:run:writer", "the result must be written with one dpkt.pcapng.Writer on a file opened 'wb' — constructed on every path once the file is open, also when nothing was decrypted (otherwise a 0-byte, invalid file is left) — as writepkt(bytes(frame), ts) per (frame, ts) pair, with dpkt's default (Ethernet) interface block, and the file closed", run.module.line(run.node)))
+    r.ob(ok, Finding("D3", "main:run:writer", "the result must be written with one dpkt.pcapng.Writer on a file opened 'wb' after the capture has been read — constructed on every path once the file is open, also when nothing was decrypted (otherwise a 0-byte, invalid file is left) — as writepkt(bytes(frame), ts) per (frame, ts) pair, with dpkt's default (Ethernet) interface block, and the file closed", run.module.line(run.node)))
     return r
 
 
